@@ -1,0 +1,90 @@
+// Package jsescape escapes text for inclusion in a JavaScript string literal.
+package jsescape
+
+import (
+	"io"
+	"strings"
+	"unicode"
+	"unicode/utf8"
+)
+
+var (
+	backslash = []byte(`\\`)
+	apos      = []byte(`\'`)
+	quot      = []byte(`\"`)
+)
+
+const hexDigits = "0123456789ABCDEF"
+
+// writeU4 writes \uXXXX for a UTF-16 code unit.
+func writeU4(w io.Writer, u rune) {
+	w.Write([]byte{'\\', 'u', hexDigits[u>>12&0xF], hexDigits[u>>8&0xF], hexDigits[u>>4&0xF], hexDigits[u&0xF]})
+}
+
+func isSpecial(r rune) bool {
+	switch r {
+	case '\\', '\'', '"', '<', '>', '&', '=':
+		return true
+	}
+	return r < ' ' || utf8.RuneSelf <= r
+}
+
+// Escape writes to w the escaped JavaScript equivalent of the plain text data b:
+// text/template.JSEscape, except that runes above 0xFFFF are escaped as UTF-16 surrogate
+// pairs, U+2028/U+2029 are always escaped, and invalid UTF-8 is written as \uFFFD.
+func Escape(w io.Writer, b []byte) {
+	last := 0
+	for i := 0; i < len(b); i++ {
+		c := b[i]
+		if !isSpecial(rune(c)) {
+			// fast path: nothing to do
+			continue
+		}
+		w.Write(b[last:i])
+
+		if c < utf8.RuneSelf {
+			// Quotes and backslashes get quoted;
+			// angle brackets, & = and control characters get written as \u00XX.
+			switch c {
+			case '\\':
+				w.Write(backslash)
+			case '\'':
+				w.Write(apos)
+			case '"':
+				w.Write(quot)
+			default:
+				writeU4(w, rune(c))
+			}
+		} else {
+			// Unicode rune.
+			r, size := utf8.DecodeRune(b[i:])
+			switch {
+			case r == utf8.RuneError && size == 1:
+				writeU4(w, utf8.RuneError)
+			case r != '\u2028' && r != '\u2029' && unicode.IsPrint(r):
+				w.Write(b[i : i+size])
+			case r > 0xFFFF:
+				// JavaScript strings are UTF-16: \uXXXX takes exactly four digits.
+				r -= 0x10000
+				writeU4(w, 0xD800+r>>10)
+				writeU4(w, 0xDC00+r&0x3FF)
+			default:
+				writeU4(w, r)
+			}
+			i += size - 1
+		}
+		last = i + 1
+	}
+	w.Write(b[last:])
+}
+
+// EscapeString returns the escaped JavaScript equivalent of the plain text data s.
+func EscapeString(s string) string {
+	// Avoid allocation if we can.
+	if strings.IndexFunc(s, isSpecial) < 0 {
+		return s
+	}
+	var b strings.Builder
+	Escape(&b, []byte(s))
+	return b.String()
+}
